@@ -34,6 +34,8 @@ def parse_out(line):
             o['R'].append((m.group(1), int(m.group(2)), int(m.group(3))) if m else (sec, -1, -1))
         elif sec.startswith('U '):
             o['U'] = sec[2:]
+        elif sec.startswith('I '):
+            o['I'] = sec[2:]
     return o
 
 def model_line(case, dump):
@@ -557,10 +559,22 @@ def shrink_expr_candidates(e):
         out.append(e[1])
     return out
 
-def shrink(doc, exprs, fails, budget=150):
+def shrink(doc, exprs, fails, budget=150, drop_exprs=True):
     """greedy delta debugging on the abstract case; `fails(doc, exprs)` -> bool"""
     steps = 0
     changed = True
+    while drop_exprs and len(exprs) > 1 and steps < budget:
+        for i in range(len(exprs)):
+            steps += 1
+            ne = exprs[:i] + exprs[i + 1:]
+            try:
+                if fails(doc, ne):
+                    exprs = ne
+                    break
+            except Exception:
+                pass
+        else:
+            break
     while changed and steps < budget:
         changed = False
         for i in range(len(exprs)):
@@ -708,3 +722,359 @@ def compare_model(r):
         if a != b:
             return 'query %d (%s): model %s, implementation %s' % (k, r['case']['exprs'][k], a, b)
     return None
+
+# ------------------------------------------------------------------ findings, accounting, reports
+FINDINGS = {
+    'D18': 'XPath over a document with a processing instruction: XmlNode::order() is 0 for PIs, so they sort before everything and several collapse into one under de-duplication (dom/src/lib.rs, being repaired by builder-dom)',
+    'D21': 'sibling axis in a document whose child lists contain equal order keys (two processing instructions): previous_sibling/next_sibling look the node up by key and cycle or skip (dom/src/lib.rs, being repaired by builder-dom)',
+    'D19': 'namespace nodes and DTD-default attributes have order key 0 (or the key of the inherited declaration): on the namespace axis / attribute axis with defaults they sort first and distinct ones collapse',
+    'D30': 'substring() works on byte offsets with unchecked usize arithmetic (scalar library, C09)',
+    'D16': 'the document-type node is visible as a child of the root node',
+    'D17': 'lang() compares for equality and ignores the xml: namespace',
+    'D22b': 'an attribute or namespace node has no parent in the dom view: parent/ancestor/following/preceding from it select nothing',
+    'D13': 'general entity references are not expanded in the DOM view (reference node without value)',
+}
+
+def corpus_items(prop):
+    """regression cases of verif/corpus/xpath_*.json (minimised failures found earlier)"""
+    d = os.path.join(lib.VERIF, 'corpus')
+    out = []
+    try:
+        names = sorted(os.listdir(d))
+    except OSError:
+        return out
+    for fn in names:
+        if fn.startswith('xpath_') and fn.endswith('.json'):
+            try:
+                for c in json.load(open(os.path.join(d, fn))).get('cases', []):
+                    out.append({'doc': c['doc'], 'exprs': c['exprs'], 'merged': c.get('merged', True),
+                                'binds': [tuple(b) for b in c.get('binds', [])], 'corpus': fn})
+            except (OSError, ValueError, KeyError):
+                pass
+    return out
+
+def account(run, item, r):
+    """histogram of the input distribution"""
+    if isinstance(item.get('doc'), dict):
+        for f in doc_features(item['doc']):
+            run.count('doc:' + f)
+        for e in item['exprs']:
+            for f in expr_features(e):
+                run.count(f)
+    if r.get('rows'):
+        run.count('rows:%d' % (10 * (len(r['rows']) // 10)))
+    if r.get('predicted_hang'):
+        run.count('model-predicts-hang')
+    if r['impl'] and r['impl'].get('R'):
+        for v in r['impl']['R']:
+            k = v[0].split(':')[0]
+            run.count('result:' + (k if k != 'err' else ':'.join(v[0].split(':')[:2])))
+    if len(run.samples) < 12 and r['impl'] and r['impl'].get('R'):
+        run.sample({'doc': r['case']['doc'][:300], 'exprs': r['case']['exprs'][:4], 'results': [v[0][:80] for v in r['impl']['R'][:4]]})
+
+def strip_anomalies(doc):
+    """the abstract document without processing instructions and without DTD (counterfactual for D18/D19/D21)"""
+    import copy
+    d = copy.deepcopy(doc)
+    def clean(e):
+        e.children = [c for c in e.children if isinstance(c, El) or c[0] != 'pi']
+        for c in e.children:
+            if isinstance(c, El):
+                clean(c)
+    clean(d['root'])
+    d['pro'] = [x for x in d['pro'] if x[0] != 'pi']
+    d['epi'] = [x for x in d['epi'] if x[0] != 'pi']
+    d['dtd'] = None
+    def refs(e):
+        e.children = [c for c in e.children if isinstance(c, El) or not (c[0] == 'ref' and c[1] == '&e;')]
+        for c in e.children:
+            if isinstance(c, El):
+                refs(c)
+    refs(d['root'])
+    return d
+
+def build_exprs(item, trees):
+    b = item.get('build')
+    return b(trees) if b else trees
+
+def run_one(item, doc, trees, isolated=False):
+    case = {'doc': render_doc(doc) if isinstance(doc, dict) else doc,
+            'exprs': [render(e) if isinstance(e, tuple) else e for e in build_exprs(item, trees)],
+            'merged': item.get('merged', True), 'binds': item.get('binds', [])}
+    out = run_isolated(case, timeout=5) if isolated else run_impl([case], timeout=20)[0]
+    return case, out
+
+def report_failures(run, prop, failing, oracle, max_shrunk=6):
+    """failing: [(item, result, class, detail)].  Classify against the known findings (with a
+    counterfactual run on the document without the anomaly), shrink the unexplained ones, file them."""
+    shrunk = 0
+    seen_classes = {}
+    for item, r, cls, detail in failing:
+        rows = r.get('rows')
+        texts = r['case']['exprs']
+        known = classify(prop, rows, texts, cls)
+        abstract = isinstance(item.get('doc'), dict)
+        if known and abstract and known[0] in ('D18', 'D21') or (known and abstract and known[0] == 'D19' and not any('namespace::' in t for t in texts)):
+            # counterfactual: the same query on the document without PIs / DTD must not fail
+            try:
+                trees = item.get('trees', item['exprs'])
+                case2, out2 = run_one(item, strip_anomalies(item['doc']), trees, isolated=(cls == 'hang'))
+                if out2.get('D') and oracle(case2, out2, item) == cls:
+                    rows2 = table_of(out2)
+                    if not classify(prop, rows2, case2['exprs'], cls):
+                        known = None
+                        r = dict(r); r['case'] = case2; r['impl'] = out2; rows = rows2
+            except Exception as ex:
+                run.notes.append('counterfactual run failed: %r' % (ex,))
+        if known:
+            fid = known[0]
+            what, n = run.known_hits.get(fid, (FINDINGS.get(fid, known[1]), 0))
+            run.known_hits[fid] = (what, n + 1)
+            if fid not in seen_classes:
+                seen_classes[fid] = 1
+                run.extra.setdefault('known_finding_samples', {})[fid] = {'doc': r['case']['doc'][:400], 'exprs': r['case']['exprs'], 'class': cls, 'detail': detail[:300]}
+                listed = [e for e in lib.known_findings(prop) if e.get('id') == fid]
+                if not listed:
+                    run.notes.append('finding %s is classified by checks/xpath_common.py; entry proposed in notes/xpath_known_findings.json' % fid)
+            continue
+        case, out = r['case'], r['impl']
+        if abstract and shrunk < max_shrunk:
+            shrunk += 1
+            trees = item.get('trees', item['exprs'])
+            def fails(doc, ex):
+                c2, o2 = run_one(item, doc, ex, isolated=(cls == 'hang'))
+                return bool(o2.get('D') or o2.get('hang')) and oracle(c2, o2, item) == cls and not classify(prop, table_of(o2) if o2.get('D') else None, c2['exprs'], cls)
+            try:
+                d2, t2 = shrink(item['doc'], list(trees), fails, drop_exprs=not item.get('build'))
+                case, out = run_one(item, d2, t2, isolated=(cls == 'hang'))
+            except Exception as ex:
+                run.notes.append('shrinking failed: %r' % (ex,))
+        run.failing_inputs.append({'property': prop, 'class': cls, 'what': '%s (before shrinking: %s)' % (cls, detail[:400]),
+                                   'doc': case['doc'], 'exprs': case['exprs'], 'merged': case.get('merged', True),
+                                   'binds': case.get('binds', []), 'implementation': out.get('raw', '')[-600:] if isinstance(out, dict) else ''})
+
+def replay(path):
+    d = json.load(open(path))
+    print(json.dumps(d, indent=1, ensure_ascii=False)[:3000])
+    if 'doc' in d and 'exprs' in d:
+        case = {'doc': d['doc'], 'exprs': d['exprs'], 'merged': d.get('merged', True), 'binds': [tuple(b) for b in d.get('binds', [])]}
+        dump = run_impl([case], dump_only=True)[0]
+        out = run_isolated(case, timeout=10)
+        print('implementation:', ' # '.join('R %s P%d,%d' % v for v in out['R']) if out.get('R') else out.get('raw'))
+        if dump.get('D'):
+            m, _ = run_model([case], [dump])
+            print('model:         ', m[0]['raw'] if m[0] else '(no output)')
+            if os.path.exists(lib.spec_bin('xpath')):
+                s, _ = run_model([case], [dump], binary=lib.spec_bin('xpath'))
+                print('spec:          ', s[0]['raw'] if s[0] else '(no output)')
+    return 0
+
+# ------------------------------------------------------------------ error injection (C06, C19)
+ERRORS = [
+    ('call', 'nosuch', []),                                   # NotFoundFunction
+    ('var', 'v'),                                             # NotFoundVariable (fixed D23)
+    ('path', '', [('/', ('step', None, 'zz:x', []))]),        # NotFoundNamespace
+    ('call', 'count', [('num', '1')]),                        # InvalidType
+    ('union', ('num', '1'), ('num', '2')),                    # InvalidType
+    ('call', 'concat', [('lit', 'a')]),                       # InvalidArgumentCount
+    ('filter', ('lit', 'a'), [('num', '1')], None),           # InvalidType (predicate on a string)
+    ('call', 'sum', [('lit', 'x')]),                          # InvalidType
+    ('call', 'zz:f', []),                                     # NotFoundNamespace (function prefix)
+    ('filter', ('num', '1'), [], ('/', ('path', '', [('/', ('step', None, 'a', []))]))),   # InvalidType: 1/a
+]
+UNSUPPORTED = [
+    ('var', 'v'), ('var', 'p:v'),
+    ('call', 'id', [('lit', 'x')]),
+    ('path', '//', [('/', ('step', None, "processing-instruction('pa')", []))]),
+    ('path', '', [('/', ('step', 'child', "processing-instruction('zz')", []))]),
+    ('path', '/', [('/', '..')]),                             # parent of the root
+    ('path', '//', [('/', ('step', '@', '*', [])), ('/', '..')]),             # parent of an attribute
+    ('path', '//', [('/', ('step', 'namespace', '*', [])), ('/', '..')]),
+    ('path', '/', [('/', ('step', 'parent', 'node()', []))]),
+    ('path', '//', [('/', ('step', '@', '*', [])), ('/', ('step', 'parent', '*', []))]),
+    ('path', '//', [('/', ('step', 'namespace', '*', [('root',)]))]),         # absolute path at a namespace node
+]
+
+def count_steps(t):
+    if isinstance(t, tuple):
+        if t and t[0] == 'step':
+            return 1 + sum(count_steps(p) for p in t[3])
+        return sum(count_steps(x) for x in t[1:])
+    if isinstance(t, list):
+        return sum(count_steps(x) for x in t)
+    return 0
+
+def add_pred_at(t, k, pred):
+    """add `pred` to the k-th step (pre-order) of tree t; returns (new tree, remaining k)"""
+    if isinstance(t, tuple):
+        if t and t[0] == 'step':
+            if k == 0:
+                return ('step', t[1], t[2], t[3] + [pred]), -1
+            k -= 1
+            preds = []
+            for p in t[3]:
+                if k >= 0:
+                    p, k = add_pred_at(p, k, pred)
+                preds.append(p)
+            return ('step', t[1], t[2], preds), k
+        out = [t[0]]
+        for x in t[1:]:
+            if k >= 0 and isinstance(x, (tuple, list)):
+                x, k = add_pred_at(x, k, pred)
+            out.append(x)
+        return tuple(out), k
+    if isinstance(t, list):
+        out = []
+        for x in t:
+            if k >= 0 and isinstance(x, (tuple, list)):
+                x, k = add_pred_at(x, k, pred)
+            out.append(x)
+        return out, k
+    return t, k
+
+def inject(rng, tree, bad):
+    """a tree in which `bad` is evaluated in a (usually nested) predicate position"""
+    n = count_steps(tree)
+    wrap = rng.random()
+    pred = bad
+    if wrap < 0.3:
+        pred = ('path', '', [('/', ('step', rng.choice([None, 'descendant-or-self', 'ancestor-or-self']), rng.choice(['*', 'node()']), [bad]))])
+    elif wrap < 0.45:
+        pred = ('bin', rng.choice(['or', 'and', '=']), ('call', rng.choice(['true', 'false']), []), bad)
+    elif wrap < 0.55:
+        pred = ('filter', ('path', '', [('/', '.')]), [bad], None)
+    if n == 0:
+        return ('filter', tree, [pred], None) if tree[0] in ('path', 'union', 'filter', 'root') else ('bin', 'or', tree, pred)
+    t, _ = add_pred_at(tree, rng.randrange(n), pred)
+    return t
+
+# ------------------------------------------------------------------ C06: evaluation is total
+def hosts(u):
+    """`u` in every syntactic position"""
+    a = ('path', '//', [('/', ('step', None, '*', []))])
+    yield u
+    yield ('path', '//', [('/', ('step', None, '*', [u]))])                                     # predicate
+    yield ('path', '//', [('/', ('step', None, '*', [('path', '', [('/', ('step', 'descendant-or-self', 'node()', [u]))])]))])   # nested predicate
+    yield ('filter', a, [u], None)                                                              # filter predicate
+    yield ('filter', a, [('num', '1'), u], ('/', ('path', '', [('/', ('step', None, '*', [u]))])))
+    yield ('call', 'count', [u])
+    yield ('call', 'string', [u])
+    yield ('call', 'concat', [('lit', 'a'), u])
+    yield ('call', 'boolean', [u])
+    yield ('call', 'not', [u])
+    yield ('call', 'sum', [u])
+    yield ('call', 'name', [u])
+    yield ('union', a, u)
+    yield ('union', u, a)
+    yield ('filter', u, [], None)                                                               # parenthesised primary
+    yield ('filter', u, [('num', '1')], None)
+    yield ('filter', u, [], ('/', ('path', '', [('/', ('step', None, '*', []))])))              # (u)/...
+    yield ('filter', u, [], ('//', ('path', '', [('/', ('step', '@', '*', []))])))
+    for op in ('=', '!=', '<', '>=', 'or', 'and', '+', '-', '*', 'div', 'mod'):
+        yield ('bin', op, u, ('num', '1'))
+        yield ('bin', op, a, u)
+    yield ('neg', u)
+    yield ('path', '//', [('/', ('step', '@', '*', [u]))])
+    yield ('path', '//', [('/', ('step', 'namespace', '*', [u]))])                              # context node: namespace node
+    yield ('path', '//', [('/', ('step', None, 'text()', [u]))])
+    yield ('path', '//', [('/', ('step', 'ancestor-or-self', 'node()', [('num', '1'), u]))])
+
+KIND_DOCS = [
+    '<r a="1" xml:lang="en"><!--c--><b x="2">t<![CDATA[cd]]>&amp;u<e/></b><c/>tail</r>',
+    '<!DOCTYPE r [<!ATTLIST b dflt CDATA "dv"><!ENTITY e "ent">]><r xmlns:p="urn:p" p:a="1"><b>x&e;y</b><p:c><d id="i"/></p:c></r>',
+    '<!--pro--><r xmlns="urn:d"><a><b><c>deep</c></b></a><a/><a>2</a></r><!--epi-->',
+    '<r><?pa v?><a/><b/></r>',
+    '<?pp v?><r><a/><?pa?><b/><?pb x?><c/></r>',
+]
+CONTEXT_SELECTORS = ['/', '/*', '//*', '//node()', '//@*', '//namespace::*', '//text()', '//comment()', '//processing-instruction()',
+                     '//@*/node()', '/node()', '//*[last()]', '/descendant::node()[1]']
+AXIS_TESTS = ['node()', '*', 'text()', 'b', 'comment()', 'processing-instruction()']
+VOCAB = ['/', '//', '.', '..', '@', '*', '[', ']', '(', ')', '|', '=', '!=', '<', '>', ',', '::', 'a', 'b', 'p:a', 'child', 'ancestor',
+         'text()', 'node()', '1', '2.5', '"s"', "'t'", 'and', 'or', 'div', 'mod', '-', '+', '$v', 'count(', 'id(', 'last()', 'position()',
+         'processing-instruction(', 'namespace::', 'following-sibling::', 'preceding::', ' ', '  ']
+
+def totality_cases(rng, n_random, quick=True):
+    """(item, stream name) list for the C06 evaluation search"""
+    out = []
+    # (a) unsupported constructs and errors in every position, on two documents
+    for u in UNSUPPORTED + ERRORS:
+        hs = list(hosts(u))
+        for d in (KIND_DOCS[0], KIND_DOCS[1]):
+            for i in range(0, len(hs), 8):
+                out.append(({'doc': d, 'exprs': [render(h) for h in hs[i:i + 8]], 'merged': True, 'binds': [('p', 'urn:p')]}, 'unsupported-in-position'))
+    # (b) every context-node kind x every axis
+    for d in KIND_DOCS:
+        for merged in (True, False):
+            for sel in CONTEXT_SELECTORS:
+                for t in AXIS_TESTS if not quick else AXIS_TESTS[:3]:
+                    ex = ['%s/%s::%s' % (sel.rstrip('/') if sel != '/' else '', ax, t) for ax in AXES]
+                    ex += ['%s/..' % (sel.rstrip('/') if sel != '/' else ''), 'count(%s/ancestor-or-self::node())' % (sel.rstrip('/') if sel != '/' else '')]
+                    out.append(({'doc': d, 'exprs': ex, 'merged': merged, 'binds': []}, 'kind-x-axis'))
+    # (c) garbage
+    for k in range(n_random // 3):
+        doc = rng.choice(KIND_DOCS[:3])
+        ex = []
+        for _ in range(6):
+            s = ''.join(rng.choice(VOCAB) for _ in range(rng.randint(1, 9)))
+            if s.count('(') <= 5:
+                ex.append(s)
+        out.append(({'doc': doc, 'exprs': ex or ['a'], 'merged': True, 'binds': [('p', 'urn:p')]}, 'garbage'))
+    # (d) generated expressions with injected failures, substring() included
+    g = Gen(rng, {'substring': 0.3, 'unsupported': 1.0, 'ns_axis': 0.1})
+    docs = []
+    for k in range(n_random):
+        if not docs or rng.random() < 0.4:
+            docs.append(gen_doc(rng))
+        e = g.any(rng.choice([1, 2, 3]))
+        if rng.random() < 0.5:
+            e = inject(rng, e, rng.choice(ERRORS + UNSUPPORTED))
+        out.append(({'doc': rng.choice(docs[-3:]), 'exprs': [e], 'merged': rng.random() < 0.7, 'binds': [('p', 'urn:p'), ('q', 'urn:q')]}, 'generated'))
+    return out
+
+def totality_oracle(case, out, item):
+    if out.get('hang'):
+        return 'hang'
+    if out.get('abort'):
+        return 'abort'
+    if any(v[0] == 'panic' for v in out.get('R', [])):
+        return 'panic'
+    return None
+
+def eval_totality(run, n_random=300, isolate_limit=3):
+    """the evaluation half of C06: every query returns a value or an error; never panics, never
+    loops.  Correspondence with the model on the same cases; panics / hangs of the implementation are
+    failing inputs, matched against the known findings D18/D21 (dom) and D30 (scalar library)."""
+    stream = totality_cases(run.rng, n_random, quick=(run.tier == 'quick'))
+    items = [it for it, _ in stream] + corpus_items('C06')
+    res, okm = evaluate(items, isolate_limit=isolate_limit)
+    if not okm:
+        run.tie_breaks.append('xpath model driver failed on some case')
+    failing = []
+    for k, (it, r) in enumerate(zip(items, res)):
+        name = stream[k][1] if k < len(stream) else 'corpus'
+        run.count('stream:' + name)
+        account(run, it, r)
+        if r['impl'] is None:
+            continue
+        if not r['dump'].get('D'):
+            if r['dump'].get('raw', '').startswith('baddoc'):
+                run.count('baddoc')
+            continue
+        d = compare_model(r)
+        if d:
+            run.tie_breaks.append('model/implementation: ' + d + ' | doc ' + r['case']['doc'][:200])
+        if r['impl'].get('hang'):
+            failing.append((it, r, 'hang', 'evaluation does not terminate within 10 s'))
+            continue
+        if r['impl'].get('abort'):
+            failing.append((it, r, 'abort', 'process aborted: ' + r['impl'].get('raw', '')[:100]))
+            continue
+        for e, v in zip(r['case']['exprs'], r['impl']['R']):
+            run.evaluations += 1
+            if v[0] != 'err:Syntax':
+                run.nontrivial.add((r['case']['doc'], e))
+            if v[0] == 'panic':
+                failing.append((dict(it, exprs=[e]) if not isinstance(it['doc'], dict) else it, dict(r, case=dict(r['case'], exprs=[e])), 'panic', '%s panics' % e))
+                break
+    report_failures(run, 'C06', failing, oracle=totality_oracle)
+    return {'cases': len(items), 'failing': len(failing)}
